@@ -101,7 +101,7 @@ def operation(draw, where):
         elif key == "src.mat":
             sl = draw(st.sampled_from([None, ":,1", "1,0:2", "0,2", "1", "0:1,1:"]))
         elif key == "src.name":
-            sl = draw(st.sampled_from([None, None, "2:", ":3", "1:4", "0"]))
+            sl = draw(st.sampled_from([None, None, "2:", ":3", "1:4", "0", "2:2", "0:0"]))      # n:n is the empty range, not the index n
         return ["inject_def", key, unit, sl]
     if k == "slice_remod":
         # a host defined through a sliced reference, then assigned again: by a literal of its shape, or by another
